@@ -296,6 +296,139 @@ def transformProduct {r : Nat} (l : List (Transform r)) : Option (Transform r) :
       some ⟨l.foldl (fun acc t => acc != t.neg) false, t0.conj, none⟩
     else none
 
+/-! ### named operations: Rotation(n, axis), Mirror(axis), dict_sym, from_string_prod -/
+
+section Named
+variable {F : Type} [Add F] [Mul F] [Sub F] [Neg F] [OfNat F 0] [OfNat F 1]
+
+/-- `[u]×` -/
+def crossMat (u : Vec F) : Mat F := fun i j =>
+  match i.val, j.val with
+  | 0, 1 => - u 2 | 0, 2 => u 1
+  | 1, 0 => u 2 | 1, 2 => - u 0
+  | 2, 0 => - u 1 | 2, 1 => u 0
+  | _, _ => 0
+
+/-- Rodrigues' formula `cosθ·1 + (1 - cosθ) u uᵀ + sinθ [u]×` — what
+    `scipy.spatial.transform.Rotation.from_rotvec(θ u).as_matrix()` returns for a unit vector `u` (contract) -/
+def rodrigues (c s : F) (u : Vec F) : Mat F := fun i j =>
+  c * (if i = j then 1 else 0) + (1 - c) * (u i * u j) + s * crossMat u i j
+
+variable [Div F] [LT F] [DecidableLT F]
+
+/-- `(cos, sin)(2π/n)` for the crystallographic orders; `s3` stands for √3 -/
+def cosSin (s3 : F) : Nat → Option (F × F)
+  | 1 => some (1, 0)
+  | 2 => some (-1, 0)
+  | 3 => some (-(1 / (1 + 1)), s3 / (1 + 1))
+  | 4 => some (0, 1)
+  | 6 => some (1 / (1 + 1), s3 / (1 + 1))
+  | _ => none
+
+/-- `axis / |axis|` for the axes used by name: ±x, ±y, ±z and the body diagonals (±1,±1,±1)/√3 -/
+def axisUnit (s3 : F) : List Int → Option (Vec F)
+  | [a, b, c] =>
+    let f : Int → F := fun z => if z = 0 then 0 else if z > 0 then 1 else -1
+    if a.natAbs + b.natAbs + c.natAbs = 1 then some (fun i => f ([a, b, c].getD i.val 0))
+    else if a.natAbs = 1 ∧ b.natAbs = 1 ∧ c.natAbs = 1 then
+      some (fun i => f ([a, b, c].getD i.val 0) * (s3 / (1 + 1 + 1)))
+    else none
+  | _ => none
+
+/-- `Rotation(n, axis)` -/
+def rotationOp (s3 : F) (n : Nat) (axis : List Int) : Option (PSym F) :=
+  match cosSin s3 n, axisUnit s3 axis with
+  | some cs, some u => some (PSym.mk' (rodrigues cs.1 cs.2 u) false)
+  | _, _ => none
+
+/-- `Mirror(axis) = PointSymmetry(-Rotation(2, axis).R)` -/
+def mirrorOp (s3 : F) (axis : List Int) : Option (PSym F) :=
+  (rotationOp s3 2 axis).map fun g => PSym.mk' (matScale g.R (-1)) false
+
+/-- `dict_sym` -/
+def namedOp (s3 : F) : String → Option (PSym F)
+  | "Identity" => some PSym.identity
+  | "Inversion" => some (PSym.mk' (matScale matId (-1)) false)
+  | "TimeReversal" => some (PSym.mk' matId true)
+  | "Mx" => mirrorOp s3 [1, 0, 0]
+  | "My" => mirrorOp s3 [0, 1, 0]
+  | "Mz" => mirrorOp s3 [0, 0, 1]
+  | "C2x" => rotationOp s3 2 [1, 0, 0]
+  | "C2y" => rotationOp s3 2 [0, 1, 0]
+  | "C2z" => rotationOp s3 2 [0, 0, 1]
+  | "C3z" => rotationOp s3 3 [0, 0, 1]
+  | "C4x" => rotationOp s3 4 [1, 0, 0]
+  | "C4y" => rotationOp s3 4 [0, 1, 0]
+  | "C4z" => rotationOp s3 4 [0, 0, 1]
+  | "C6z" => rotationOp s3 6 [0, 0, 1]
+  | _ => none
+
+/-- `product(lst)`: `res = Identity; for op in lst[::-1]: res = op * res` -/
+def productOps (l : List (PSym F)) : PSym F := l.foldr (fun op res => op.mul res) PSym.identity
+
+/-- `from_string_prod("A*B*…")` (`none` = the ValueError for an unknown name) -/
+def fromStringProd (s3 : F) (s : String) : Option (PSym F) :=
+  ((s.splitOn "*").mapM (namedOp s3)).map productOps
+
+end Named
+
+/-! ### ℚ(√3): scalars in which the named operations are executed -/
+
+structure QS3 where
+  a : Rat
+  b : Rat     -- a + b√3
+deriving DecidableEq
+
+namespace QS3
+instance : Add QS3 := ⟨fun x y => ⟨x.a + y.a, x.b + y.b⟩⟩
+instance : Sub QS3 := ⟨fun x y => ⟨x.a - y.a, x.b - y.b⟩⟩
+instance : Neg QS3 := ⟨fun x => ⟨-x.a, -x.b⟩⟩
+instance : Mul QS3 := ⟨fun x y => ⟨x.a * y.a + 3 * x.b * y.b, x.a * y.b + x.b * y.a⟩⟩
+instance : OfNat QS3 0 := ⟨⟨0, 0⟩⟩
+instance : OfNat QS3 1 := ⟨⟨1, 0⟩⟩
+instance : Div QS3 := ⟨fun x y =>
+  let n := y.a * y.a - 3 * y.b * y.b
+  ⟨(x.a * y.a - 3 * x.b * y.b) / n, (x.b * y.a - x.a * y.b) / n⟩⟩
+/-- is `a + b√3` positive? -/
+def pos (x : QS3) : Bool :=
+  if x.a ≥ 0 ∧ x.b ≥ 0 then decide (x.a ≠ 0 ∨ x.b ≠ 0)
+  else if x.a ≤ 0 ∧ x.b ≤ 0 then false
+  else if x.a > 0 then decide (x.a * x.a > 3 * x.b * x.b)
+  else decide (3 * x.b * x.b > x.a * x.a)
+instance : LT QS3 := ⟨fun x y => pos (y - x) = true⟩
+instance : DecidableLT QS3 := fun x y => inferInstanceAs (Decidable (pos (y - x) = true))
+def sqrt3 : QS3 := ⟨0, 1⟩
+end QS3
+
+/-! ### results: delegation of `transform` to `transform_tensor` -/
+
+/-- what `EnergyResult` / `KBandResult` carry for the symmetry code: data, and their own declared transforms
+    (the rank is the type index) -/
+structure ResultM (r : Nat) (K : Type) where
+  data : Tensor r K
+  tTR : Transform r
+  tInv : Transform r
+
+section Results
+variable {K : Type} [Add K] [Mul K] [Neg K] {r : Nat} {F : Type}
+
+/-- `EnergyResult.transform(sym)` / `K__Result.transform(sym)`: `sym.transform_tensor(self.data, self.rank,
+    transformTR=self.transformTR, transformInv=self.transformInv)`, transforms and rank passed on unchanged -/
+def ResultM.transform (ι : F → K) (conj : K → K) (g : PSym F) (res : ResultM r K) : ResultM r K :=
+  ⟨transformTensor ι conj g res.tTR res.tInv res.data, res.tTR, res.tInv⟩
+
+/-- `ResultDict.transform(sym)`: every entry by its own `transform` -/
+def resultDictTransform (ι : F → K) (conj : K → K) (g : PSym F) (d : List (String × ResultM r K)) :
+    List (String × ResultM r K) :=
+  d.map fun kv => (kv.1, kv.2.transform ι conj g)
+
+/-- `PointGroup.symmetrize(result) = sum(result.transform(s) for s in symmetries) / size` for an EnergyResult -/
+def symmetrizeResult [Div K] [OfNat K 0] [NatCast K] (ι : F → K) (conj : K → K) (L : List (PSym F))
+    (res : ResultM r K) : ResultM r K :=
+  ⟨fun idx => (L.foldl (fun acc g => acc + (res.transform ι conj g).data idx) 0) / (L.length : K), res.tTR, res.tInv⟩
+
+end Results
+
 /-! ### Gaussian rationals (scalars of the executed model) -/
 
 structure GI where
@@ -322,6 +455,8 @@ open WB.IO
 
 def matOfList (l : List Rat) : Mat Rat := fun i j => l.getD (3 * i.val + j.val) 0
 def vecOfList (l : List Rat) : Vec Rat := fun i => l.getD i.val 0
+def matToListG {F : Type} (A : Mat F) : List F :=
+  (List.finRange 3).flatMap fun i => (List.finRange 3).map fun j => A i j
 def matToList (A : Mat Rat) : List Rat :=
   (List.finRange 3).flatMap fun i => (List.finRange 3).map fun j => A i j
 def vecToList (v : Vec Rat) : List Rat := (List.finRange 3).map v
@@ -376,6 +511,29 @@ def withRank (rk : String) (f : (r : Nat) → String) : String :=
 
 def handle : List String → String
   -- constructor + product on full matrices:  mk Rfull tr
+  -- named operations in Q(sqrt3):  named <string>  ->  a-parts(9) b-parts(9) inv tr   |  ERR
+  | ["named", name] =>
+    match fromStringProd QS3.sqrt3 name with
+    | some g => showRats ((matToListG g.R).map (·.a)) ++ " " ++ showRats ((matToListG g.R).map (·.b)) ++ " "
+        ++ showBool g.inv ++ " " ++ showBool g.tr
+    | none => "ERR"
+  -- Rotation(n, axis) / Mirror(axis):  rot n a,b,c   |  mir a,b,c
+  | ["rot", n, ax] =>
+    match parseNat? n, parseInts? ax with
+    | some n, some ax =>
+      match rotationOp QS3.sqrt3 n ax with
+      | some g => showRats ((matToListG g.R).map (·.a)) ++ " " ++ showRats ((matToListG g.R).map (·.b)) ++ " "
+          ++ showBool g.inv ++ " " ++ showBool g.tr
+      | none => "ERR"
+    | _, _ => "bad-op"
+  | ["mir", ax] =>
+    match parseInts? ax with
+    | some ax =>
+      match mirrorOp QS3.sqrt3 ax with
+      | some g => showRats ((matToListG g.R).map (·.a)) ++ " " ++ showRats ((matToListG g.R).map (·.b)) ++ " "
+          ++ showBool g.inv ++ " " ++ showBool g.tr
+      | none => "ERR"
+    | none => "bad-op"
   | ["mk", m, tr] =>
     match parseRats? m, parseBool? tr with
     | some l, some t => showPSyms [PSym.mk' (matOfList l) t]
